@@ -21,10 +21,13 @@ CHECKS['C02'] = {
 
 
 CHECKS['C03'] = {
-    'jobs': {'quick': [J('c03_timers.cpp', ['K=3', 'NT=2'], wall=280, markers=(1, 2, 3))],
-             'thorough': [J('c03_timers.cpp', ['K=4', 'NT=2'], wall=1700, markers=(1, 2, 3)), J('c03_timers.cpp', ['K=3', 'NT=3'], wall=600, markers=(1, 2, 3))]},
+    'jobs': {'quick': [J('c03_timers.cpp', ['K=3', 'NT=2'], wall=280, markers=(1, 2, 3)),
+                       J('c03_timers.cpp', ['K=2', 'NT=2', 'TIES'], wall=120, markers=(1, 2, 3)),
+                       J('c03_timers.cpp', ['K=2', 'NT=2', 'EXPIRED'], wall=120, markers=(1, 2))],
+             'thorough': [J('c03_timers.cpp', ['K=4', 'NT=2'], wall=1700, markers=(1, 2, 3)), J('c03_timers.cpp', ['K=3', 'NT=3'], wall=600, markers=(1, 2, 3)),
+                          J('c03_timers.cpp', ['K=3', 'NT=2', 'TIES'], wall=600, markers=(1, 2, 3)), J('c03_timers.cpp', ['K=3', 'NT=2', 'EXPIRED'], wall=600, markers=(1, 2))]},
     'bounds': {'quick': 'sequences of K=3 ops over 2 timers from {expires_at(k*u), expires_after(k*u), async_wait, cancel, cancel_one, destroy+recreate}, '
-                        'k in {-1,0,1,2}, u symbolic in [1,1e9] ns; ops issued all outside run() or the first outside and the rest one per completion handler',
+                        'k in {-1,0,1,2}, u symbolic in [1,1e9] ns; ops issued all outside run() or the first outside and the rest one per completion handler; plus K=2 after the preset "both timers armed for the same instant with waits outstanding" and K=2 after the preset "timer 0 armed and never waited on, timer 1 waiting for twice as long"',
                'thorough': 'K=4 over 2 timers and K=3 over 3 timers'},
     'outside': ['more than one outstanding wait per timer (unsupported by the API, TODO in the source)', 'moved timers', 'longer sequences'],
     'assumptions': ['one outstanding wait per timer', 'order between a wait that was already due when started and other ready handlers is left open by the property and not checked'],
@@ -51,16 +54,17 @@ CHECKS['C09'] = {
 CHECKS['C10'] = {
     'jobs': {'quick': [J('c09_queue.cpp', ['MODE=1', 'HOPS=1', 'NPKT=3'], wall=250, markers=(1, 2, 3)),
                        J('c09_queue.cpp', ['MODE=1', 'HOPS=2', 'NPKT=2'], wall=250, markers=(1, 2, 3)),
-                       J('c09_queue.cpp', ['MODE=3', 'HOPS=1', 'NPKT=2'], wall=250, markers=(1, 2, 3))],
+                       J('c09_queue.cpp', ['MODE=3', 'HOPS=1', 'NPKT=2'], wall=250, markers=(1, 2, 3)),
+                       J('c09_queue.cpp', ['MODE=1', 'HOPS=1', 'NPKT=3', 'REENTER'], wall=250, markers=(1, 2, 3))],
              'thorough': [J('c09_queue.cpp', ['MODE=1', 'HOPS=1', 'NPKT=4'], wall=1500, markers=(1, 2, 3)),
                           J('c09_queue.cpp', ['MODE=1', 'HOPS=2', 'NPKT=3'], wall=1500, markers=(1, 2, 3)),
                           J('c09_queue.cpp', ['MODE=3', 'HOPS=1', 'NPKT=4'], wall=1500, markers=(1, 2, 3)),
                           J('c09_queue.cpp', ['MODE=3', 'HOPS=2', 'NPKT=3'], wall=1500, markers=(1, 2, 3))]},
-    'bounds': {'quick': 'symbolic sizes: 1 queue x 3 packets, 2 queues x 2 packets, capacity symbolic 0..5000 bytes, infinitely fast link with latency 0 or symbolic, packet type symbolic over all 5 types, '
+    'bounds': {'quick': 're-entrant arrival: the last packet is injected into the queue from inside the forwarding call of the first; symbolic sizes: 1 queue x 3 packets, 2 queues x 2 packets, capacity symbolic 0..5000 bytes, infinitely fast link with latency 0 or symbolic, packet type symbolic over all 5 types, '
                         'overhead symbolic 20..1500, bursts (gap 0) and spaced arrivals, one packet without a drop callback; rate-limited link {1k,56k B/s}: 1 queue x 2 packets with sizes from {20,548,1500}',
                'thorough': '4 packets on 1 queue, 3 packets over 2 queues, in both regimes'},
     'outside': ['more packets than the bound (the byte account over long histories is covered only up to the bound)',
-                'a packet re-entering the same queue from inside its own forwarding call (re-entrant arrival)'],
+                'nested re-entrant arrivals deeper than one level'],
     'assumptions': [],
 }
 
@@ -117,14 +121,15 @@ CHECKS['C14'] = {
 
 CHECKS['C05'] = {
     'jobs': {'quick': [J('c05_tcp.cpp', ['LEN=5', 'LOSS=1', 'DROPS=2', 'DIR=0'], wall=280, markers=(1, 2, 3, 5)),
+                       J('c05_tcp.cpp', ['LEN=4', 'LOSS=0', 'DIR=0', 'MOVES'], wall=200, markers=(1, 2, 5)),
                        J('c05_tcp.cpp', ['LEN=4', 'LOSS=0', 'DIR=1'], wall=120, markers=(1, 2, 5)),
-                       J('c05_tcp.cpp', ['LEN=4', 'LOSS=0', 'DIR=0', 'REUSE=1'], wall=120, markers=(1, 4))],
+                       J('c05_tcp.cpp', ['LEN=4', 'LOSS=1', 'DROPS=1', 'DIR=0', 'REUSE=1'], wall=200, markers=(1, 4))],
              'thorough': [J('c05_tcp.cpp', ['LEN=8', 'LOSS=1', 'DROPS=4', 'DIR=0'], wall=1700, markers=(1, 2, 3, 5)),
-                          J('c05_tcp.cpp', ['LEN=6', 'LOSS=1', 'DROPS=3', 'DIR=1', 'MTU=2000'], wall=900, markers=(1, 2, 5)),
+                          J('c05_tcp.cpp', ['LEN=6', 'LOSS=1', 'DROPS=3', 'DIR=1', 'MTU=3', 'MOVES'], wall=1700, markers=(1, 2, 5)),
                           J('c05_tcp.cpp', ['LEN=6', 'LOSS=1', 'DROPS=2', 'DIR=0', 'REUSE=1'], wall=900, markers=(1, 4))]},
-    'bounds': {'quick': 'one connection, 5 symbolic payload bytes, path MTU 3 (2-3 segments), write chunk in {1, MTU, MTU+1, all}, 1- or 2-buffer gather writes, read buffer in {1,2,64}, '
+    'bounds': {'quick': 'one connection, 5 symbolic payload bytes, path MTU 3 (2-3 segments), write chunk in {1, MTU, MTU+1, all}, 1- or 2-buffer gather writes, read buffers {1}, {2}, {64}, {2+3} and {LEN+8} (scatter reads, one ending exactly at the data), reader armed at once or only after everything (incl. end-of-file) is queued, '
                         'async_read_some or wait+read_some, writer closes or not; the first 2 payload segments are each passed / dropped / held back (reordered) by a hop on the route (9 fault patterns); '
-                        'reverse direction lossless; accepted socket object closed with unread data and reused for a second connection',
+                        'lossless with the connector / the accepted socket moved after establishment or the reader moved after its first read; reverse direction lossless; accepted socket object closed with unread data (first segment passed/dropped/held) and reused for a second two-segment connection',
                'thorough': '8 bytes with the first 4 segments faulted (81 patterns), reverse direction with faults, reuse with faults'},
     'outside': ['longer streams, more than 4 faulted segments', 'routes without any queue hop between the nodes (handshake would complete inside async_connect; unsupported by the library)',
                 'simultaneous payload in both directions'],
@@ -132,6 +137,7 @@ CHECKS['C05'] = {
 }
 CHECKS['C06'] = {
     'jobs': {'quick': [J('c05_tcp.cpp', ['LEN=6', 'LOSS=2', 'PROGRESS=1', 'DIR=0'], wall=280, markers=(1, 2)),
+                       J('c05_tcp.cpp', ['LEN=6', 'LOSS=1', 'DROPS=2', 'PROGRESS=1', 'DIR=0', 'NATTED'], wall=280, markers=(1, 2, 3)),
                        J('c05_tcp.cpp', ['LEN=5', 'LOSS=0', 'PROGRESS=1', 'DIR=1'], wall=120, markers=(1, 2))],
              'thorough': [J('c05_tcp.cpp', ['LEN=9', 'LOSS=2', 'PROGRESS=1', 'DIR=0'], wall=1700, markers=(1, 2)),
                           J('c05_tcp.cpp', ['LEN=9', 'LOSS=2', 'PROGRESS=1', 'DIR=1', 'MTU=3'], wall=1700, markers=(1, 2))]},
@@ -143,13 +149,13 @@ CHECKS['C06'] = {
 }
 
 CHECKS['C07'] = {
-    'jobs': {'quick': [J('c07_pairing.cpp', ['NCLI=2'], wall=280, markers=(1, 2))],
-             'thorough': [J('c07_pairing.cpp', ['NCLI=2'], wall=900, markers=(1, 2)), J('c07_pairing.cpp', ['NCLI=2', 'AF6=1'], wall=900, markers=(1, 2))]},
-    'bounds': {'quick': '2 clients on 2 nodes connect to one acceptor on a two-address server node (listening on either address); each accept uses a symbolic overload (3); accepts posted before the SYNs or after they queued up; '
+    'jobs': {'quick': [J('c07_pairing.cpp', ['NCLI=3'], wall=280, markers=(1, 2))],
+             'thorough': [J('c07_pairing.cpp', ['NCLI=3'], wall=900, markers=(1, 2)), J('c07_pairing.cpp', ['NCLI=3', 'AF6=1'], wall=900, markers=(1, 2))]},
+    'bounds': {'quick': '3 clients on 2 nodes connect to one acceptor on a two-address server node (listening on either address); each accept uses a symbolic overload (3); accepts posted before the SYNs or after they queued up; '
                         'NAT placement none / one client / both / both behind one external address / client and server; one extra connect to the other address or another port (refused); one distinct byte each way per pair; '
-                        'finally close() or close(ec) on the acceptor, a late connect (refused) and a re-bind of the endpoint; IPv4',
+                        'finally close() or close(ec) on the acceptor, a late connect (refused), the same acceptor re-opened and bound but not listening (connect refused); IPv4',
                'thorough': 'same plus the IPv6 instance'},
-    'outside': ['more than 2 queued connects', 'several acceptors', 'routes without a queue hop'],
+    'outside': ['more than 3 queued connects', 'several acceptors', 'routes without a queue hop'],
     'assumptions': ['every route between two nodes contains at least one sim::queue'],
 }
 CHECKS['C13'] = {
@@ -163,7 +169,7 @@ CHECKS['C13'] = {
 }
 
 CHECKS['C20'] = {
-    'jobs': {'quick': [J('c05_tcp.cpp', ['LEN=5', 'LOSS=0', 'DIR=0', 'MTU=2'], wall=120, markers=(1, 2)),
+    'jobs': {'quick': [J('c05_tcp.cpp', ['LEN=5', 'LOSS=0', 'DIR=0', 'MTU=2', 'MOVES'], wall=200, markers=(1, 2)),
                        J('c05_tcp.cpp', ['LEN=5', 'LOSS=0', 'DIR=1', 'MTU=2'], wall=120, markers=(1, 2)),
                        J('c05_tcp.cpp', ['LEN=5', 'LOSS=0', 'DIR=1', 'MTU=3000'], wall=120, markers=(1, 2)),
                        J('c08_udp.cpp', ['SCEN=3'], wall=120, markers=(1, 2, 3))],
@@ -182,7 +188,7 @@ CHECKS['C04'] = {
     'jobs': {'quick': [J('c04_abort.cpp', ['KMAX=10'], wall=280, markers=(1, 2, 3), opts={'max_instr': 3000000})],
              'thorough': [J('c04_abort.cpp', ['KMAX=16'], wall=900, markers=(1, 2, 3), opts={'max_instr': 3000000})]},
     'bounds': {'quick': '14 operation kinds (timer wait; TCP connect, refused connect, read, wait-read, blocked write; the three accepts; UDP receive_from, receive, wait-read, wait-write; resolve) x '
-                        '6 interventions (none, cancel, close, destroy, supersede / re-arm, handler throws) x every event boundary k in -1..10 (and at quiescence) x awaited event arrives after 3 ms or never',
+                        '7 interventions (none, cancel, close, destroy, supersede with the same operation / re-arm, handler throws, supersede with the other form of the operation) x every event boundary k in -1..10 (and at quiescence) x awaited event arrives after 3 ms or never',
                'thorough': 'boundaries up to 16'},
     'outside': ['interventions on operations of other objects of the same scenario', 'lossy routes (see C12 thorough)'],
     'assumptions': ['step hook in simulation::run() (guard LIBSIMULATOR_VERIF): one handler per poll_one()'],
@@ -190,7 +196,8 @@ CHECKS['C04'] = {
 CHECKS['C12'] = dict(CHECKS['C04'])
 CHECKS['C12'] = {
     'jobs': {'quick': [J('c04_abort.cpp', ['KMAX=10'], wall=280, markers=(1, 2, 3), opts={'max_instr': 3000000}),
-                       J('c05_tcp.cpp', ['LEN=5', 'LOSS=2', 'PROGRESS=0', 'DIR=0'], wall=200, markers=(1, 2))],
+                       J('c05_tcp.cpp', ['LEN=5', 'LOSS=2', 'PROGRESS=0', 'DIR=0'], wall=200, markers=(1, 2)),
+                       J('c05_tcp.cpp', ['LEN=4', 'LOSS=0', 'DIR=0', 'MOVES'], wall=200, markers=(1, 2, 5))],
              'thorough': [J('c04_abort.cpp', ['KMAX=16'], wall=900, markers=(1, 2, 3), opts={'max_instr': 3000000}),
                           J('c05_tcp.cpp', ['LEN=8', 'LOSS=2', 'PROGRESS=0', 'DIR=0'], wall=900, markers=(1, 2))]},
     'bounds': CHECKS['C04']['bounds'],
